@@ -373,8 +373,11 @@ class PbfEncoder {
             if (bp.granularity != 100) ch.note("pbf-granularity-" + std::to_string(bp.granularity));
             if (s.chance(1, 3)) {
                 int64_t base = bp.granularity > 100 ? static_cast<int64_t>(plan.coord_rem) * 100 : 0;
-                bp.lat_off = base + bp.granularity * s.range(-2000000, 2000000);
-                bp.lon_off = base + bp.granularity * s.range(-2000000, 2000000);
+                // offsets of any size up to the whole coordinate range (+-180 degrees = +-1.8e11 nanodegrees), small ones more often
+                const int64_t span = s.chance(1, 2) ? 2000000 : 180000000000LL / bp.granularity;
+                bp.lat_off = base + bp.granularity * s.range(-span, span);
+                bp.lon_off = base + bp.granularity * s.range(-span, span);
+                if (span > 2000000) ch.note("pbf-latlon-offset-large");
                 ch.note("pbf-latlon-offset");
             } else if (bp.granularity > 100) {
                 bp.lat_off = bp.lon_off = static_cast<int64_t>(plan.coord_rem) * 100;
